@@ -128,6 +128,16 @@ def corpus_tree(root):
         os.chmod(os.path.join(root, path), 0o644)
     os.symlink(".", os.path.join(root, "sub/self"))
     os.symlink("..", os.path.join(root, "sub/deep/up"))
+    # links to files whose own length (= length of the target path) and whose target's length lie on different sides
+    # of --max-filesize 25: a short link to a long file, a long link to a short file
+    with open(os.path.join(root, "sub/long.txt"), "w") as f:
+        f.write("".join("line %d of a long file with a hit\n" % i for i in range(12)))
+    with open(os.path.join(root, "sub/deep/a_short_file_with_a_long_name.txt"), "w") as f:
+        f.write("tiny hit\n")
+    for x in ("sub/long.txt", "sub/deep/a_short_file_with_a_long_name.txt"):
+        os.chmod(os.path.join(root, x), 0o644)
+    os.symlink("../sub/long.txt", os.path.join(root, "other/l1.txt"))                                    # 15 / 400 bytes
+    os.symlink("../sub/deep/a_short_file_with_a_long_name.txt", os.path.join(root, "other/l2.txt"))     # 45 / 9 bytes
     with open(os.path.join(root, "pre.sh"), "w") as f:
         f.write('#!/bin/sh\nexec cat "$1"\n')
     os.chmod(os.path.join(root, "pre.sh"), 0o755)
@@ -265,6 +275,10 @@ def check_cli(ctx, rng, ntrees, runs_per_tree):
     for mode in ("noheading", "count", "list"):
         for n in (2, 3, 8):
             jobs.append(dict(root=root, mode=mode, n=n, pre=False, sort=False, follow=False, explicit=True))
+    for mode, n in (("noheading", 2), ("files", 4), ("list", 8)):
+        jobs.append(dict(root=root, mode=mode, n=n, pre=False, sort=False, follow=True, explicit=False, maxsize=25))
+    for mode, n in (("noheading", 2), ("heading", 4), ("context", 3), ("count", 8), ("json", 2)):
+        jobs.append(dict(root=root, mode=mode, n=n, pre=False, sort=False, follow=False, explicit=False, stats=True))
     for _ in range(ntrees):
         root = K.mktree("c08")
         gen_tree(rng, root)
@@ -275,7 +289,9 @@ def check_cli(ctx, rng, ntrees, runs_per_tree):
             pre = rng.random() < 0.35 and mode != "files"
             sort = rng.random() < 0.15
             jobs.append(dict(root=root, mode=mode, n=n, pre=pre, sort=sort, follow=rng.random() < 0.45,
-                             explicit=rng.random() < 0.4))
+                             explicit=rng.random() < 0.4,
+                             maxsize=rng.choice([None, None, None, 12, 25, 40, 100, 3000]),
+                             stats=(rng.random() < 0.3 and mode not in ("files",))))
     def run(j):
         base = mode_args(j["mode"])
         if j["pre"]:
@@ -284,6 +300,10 @@ def check_cli(ctx, rng, ntrees, runs_per_tree):
             base = base + ["--sort", "path"]
         if j["follow"]:
             base = ["-L"] + base
+        if j.get("maxsize"):
+            base = ["--max-filesize", str(j["maxsize"])] + base
+        if j.get("stats") and j["mode"] != "json":
+            base = ["--stats"] + base
         if j["explicit"]:
             base = base + explicit_paths(j["root"])
         r1 = K.run_rg(["-j1"] + base, j["root"], nobody=False)
@@ -295,15 +315,32 @@ def check_cli(ctx, rng, ntrees, runs_per_tree):
     stat = ctx.cov.setdefault("modes", {})
     orders_differ = 0
     for j, (r1, rn, rn2) in zip(jobs, res):
-        key = "%s%s%s%s%s" % (j["mode"], "/pre" if j["pre"] else "", "/sort" if j["sort"] else "",
-                              "/L" if j["follow"] else "", "/file+dirs" if j["explicit"] else "")
+        key = "%s%s%s%s%s%s%s" % (j["mode"], "/pre" if j["pre"] else "", "/sort" if j["sort"] else "",
+                                  "/L" if j["follow"] else "", "/file+dirs" if j["explicit"] else "",
+                                  "/maxsize" if j.get("maxsize") else "", "/stats" if j.get("stats") else "")
         stat[key] = stat.get(key, 0) + 1
         replay = dict(kind="cli", mode=j["mode"], n=j["n"], pre=j["pre"], sort=j["sort"], follow=j["follow"],
                       tree=tree_listing(j["root"]),
-                      args=" ".join((["-L"] if j["follow"] else []) + mode_args(j["mode"]) +
+                      args=" ".join((["--stats"] if j.get("stats") and j["mode"] != "json" else []) +
+                                    (["--max-filesize", str(j["maxsize"])] if j.get("maxsize") else []) +
+                                    (["-L"] if j["follow"] else []) + mode_args(j["mode"]) +
                                     (explicit_paths(j["root"]) if j["explicit"] else [])),
                       j1=dict(status=r1["status"], out=repr(r1["out"][:400]), err=repr(r1["err"][:200])),
                       jn=dict(status=rn["status"], out=repr(rn["out"][:400]), err=repr(rn["err"][:200])))
+        has_stats = bool(j.get("stats")) and j["mode"] != "json"
+        if has_stats:
+            o1, t1 = strip_stats(j["mode"], r1["out"], False)
+            on, tn = strip_stats(j["mode"], rn["out"], True)
+            on2, tn2 = strip_stats(j["mode"], rn2["out"], True)
+            ctx.cov["stats_runs"] = ctx.cov.get("stats_runs", 0) + 1
+            if t1 is None or tn is None or tn2 is None:
+                ctx.violation("--stats: no statistics block at the end of the output", replay, nfi=True)
+                continue
+            if tn != t1 or tn2 != t1:
+                ctx.violation("--stats totals differ between -j1 and -j%d: %r vs %r" % (j["n"], t1, tn if tn != t1 else tn2),
+                              replay)
+                continue
+            r1, rn, rn2 = dict(r1, out=o1), dict(rn, out=on), dict(rn2, out=on2)
         b1, p1, s1 = split_blocks(j["mode"], r1["out"])
         ctx.note_case(repr((j["root"], j["mode"], j["n"], j["pre"], j["sort"], j["follow"], j["explicit"])), len(b1) >= 2)
         if j["follow"]:
@@ -314,7 +351,8 @@ def check_cli(ctx, rng, ntrees, runs_per_tree):
         # diagnostics: only the walker's messages about links (loops, dangling targets) under -L are expected; each is
         # determined by its path, so the two runs must print the same multiset of lines
         e1 = canon_err(r1["err"])
-        unexpected = [l for l in e1 if l[0] == "other" or not j["follow"]]
+        unexpected = [l for l in e1 if l[0] == "other" or (l[0] == "nothing searched" and not j.get("maxsize"))
+                      or (l[0] in ("loop", "nofile") and not j["follow"])]
         if unexpected:
             ctx.violation("diagnostics in an error-free tree: %r" % unexpected[:2], replay, nfi=True)
             continue
@@ -344,6 +382,11 @@ def check_cli(ctx, rng, ntrees, runs_per_tree):
                 ctx.violation("--sort path: -j%d output differs from -j1" % j["n"], replay)
                 break
             failed = False
+            if j["mode"] == "json" and json_totals(sn) != json_totals(s1):
+                ctx.violation("--json summary totals differ between -j1 and -j%d: %r vs %r" % (
+                    j["n"], json_totals(s1), json_totals(sn)), replay)
+                failed = True
+                break
             if [p for p, _ in bn] != [p for p, _ in b1]:
                 orders_differ += 1
         if failed:
@@ -354,7 +397,7 @@ def check_cli(ctx, rng, ntrees, runs_per_tree):
             continue
         # the model replays the completion order observed in the -jN output and must give exactly its bytes
         bn, pn, sn = split_blocks(j["mode"], rn["out"])
-        if not pn and j["mode"] != "json" and len(rn["out"]) < 60000:
+        if not pn and j["mode"] != "json" and len(rn["out"]) < 60000 and not has_stats:
             sepb = separator_of(j["mode"])
             for which, blocks, thr, actual in (("par", bn, j["n"], rn["out"]), ("ser", b1, 1, r1["out"])):
                 if j["sort"]:
@@ -382,6 +425,35 @@ def check_cli(ctx, rng, ntrees, runs_per_tree):
         K.rmtree(root)
 
 
+STATS_RE = re.compile(rb"\n(\d+) matches\n(\d+) matched lines\n(\d+) files contained matches\n(\d+) files searched\n"
+                      rb"(\d+) bytes printed\n(\d+) bytes searched\n[0-9.]+ seconds spent searching\n[0-9.]+ seconds\n$")
+
+
+def strip_stats(mode, out, parallel):
+    """-> (output without the statistics block, totals) ; totals = (matches, matched lines, files with matches, files
+    searched, bytes searched) — bytes printed and the timings are not compared.  With several threads the block goes
+    through the buffer writer and is therefore preceded by the file separator line if anything was printed before."""
+    m = STATS_RE.search(out)
+    if not m:
+        return out, None
+    body = out[:m.start()]
+    totals = tuple(int(m.group(i)) for i in (1, 2, 3, 4, 6))
+    sep = separator_of(mode)
+    if parallel and sep is not None and body.endswith(b"\n" + sep + b"\n"):
+        body = body[:len(body) - len(sep) - 1]
+    return body, totals
+
+
+def json_totals(summary_line):
+    if not summary_line:
+        return None
+    try:
+        st = json.loads(summary_line)["data"]["stats"]
+    except (ValueError, KeyError):
+        return None
+    return tuple(st.get(k) for k in ("matches", "matched_lines", "searches_with_match", "searches", "bytes_searched"))
+
+
 def canon_err(err):
     """stderr as a sorted list of (kind, path...): the serial walker (walkdir) and the parallel walker word the same
     fact differently ('IO error for operation on P: ...' vs 'P: ...'), so only kind and path are kept"""
@@ -396,6 +468,9 @@ def canon_err(err):
         m = re.match(rb"rg: (?:IO error for operation on )?(\S+?): (?:IO error for operation on \S+: )?No such file or directory", l)
         if m:
             res.append(("nofile", os.path.normpath(m.group(1).decode())))
+            continue
+        if l.startswith(b"rg: No files were searched") or l.startswith(b"Running with --debug will show"):
+            res.append(("nothing searched", ""))          # e.g. --max-filesize below every file's size
             continue
         res.append(("other", l.decode("latin1")))
     return sorted(res)
@@ -486,7 +561,7 @@ def run(ctx):
     rng = ctx.rng
     ctx.cov["rule"] = ("trees of 2-12 *.txt files (0..40000 lines, hit density 0/5%%/30%%/100%%) in up to 5 directories; per "
                        "tree several runs: mode in %s x N in 2..16 x slow --pre on 'slow*' files (35%%) x --sort path "
-                       "(15%%) x explicit `top.txt dir...` arguments (40%%; directories hold files with NUL bytes) x -L (45%%; trees contain directory links to '.', '..', a sibling, an ancestor two levels up, "
+                       "(15%%) x --stats (30%%, totals compared) x --max-filesize (40%%; 12..3000 bytes) x explicit `top.txt dir...` arguments (40%%; directories hold files with NUL bytes) x -L (45%%; trees contain directory links to '.', '..', a sibling, an ancestor two levels up, "
                        "dangling links and links to files); a fixed corner tree (directory containing a link to itself) first; "
                        "every configuration run once with -j1 and twice with -jN. non-trivial = at least two "
                        "non-empty blocks." % ", ".join(MODES))
